@@ -63,6 +63,18 @@ CHECKS["C04"] = dict(
          "values before list indexing. Behaviour the statement does not name (negative index, undefined compare) is assumed away.",
     design="3/C04")
 
+CHECKS["C05"] = dict(
+    engine="symx",
+    technique="SMT (z3 LIA): symbolic execution of the real SDK->assembler->Executor pipeline vs. direct evaluation of the host program",
+    text="Host programs of a small DSL (if_* in context and callback form over Future/RegFuture/int operands, loop, loop_body, foreach, "
+         "enumerate, loop_until, add with/without modulus, arrays with initial values, measurement into array entries / fresh futures "
+         "/ registers, flush anywhere between top-level statements) are run through the real Builder, assembler and Executor with all "
+         "array contents, constants, moduli and measurement outcomes symbolic; after every flush z3 decides on every path that host "
+         "handles, controller arrays/registers and the gate/measurement trace equal the direct evaluation. ~1400 programs quick.",
+    note="Trusted: z3; vf/sdkdsl.py RefInterp (direct evaluation); PipeConnection bypasses serialisation (int-subclass immediates are "
+         "converted to their payload as the wire would). Programs beyond the size/nesting bound and EPR operations are outside.",
+    design="3/C05")
+
 NOT_YET = "check not built yet in this revision (work in progress; see DESIGN.md section 3 for the planned solver-based check)"
 NOT_APPLICABLE = {}
 
